@@ -48,9 +48,12 @@ COMMON_VARIANTS = [
     # lists that come from the configuration, not from MODE
     {"extra_channels": [{"name": "#p1", "topic": "configured lists",
                          "modes": {"ban": ["al!*@*", "*!~bob@*", "Al!*@*"], "exception": ["*!*@10.*", "cy!*@*"],
-                                   "invite_exception": ["di!*@*"], "voices": ["ed"]}}]},
+                                   "invite_exception": ["di!*@*"], "voices": ["ed"],
+                                   # somebody has to be able to edit the configured lists
+                                   "operators": ["al", "bo"], "half_operators": ["cy"]}}]},
     {"extra_channels": [{"name": "#p1", "modes": {"ban": ["*!*@127.0.0.1"], "exception": ["bo!*@*", "root!*@*"],
-                                                   "moderated": True, "voices": ["bo", "al"]}}]},
+                                                   "moderated": True, "voices": ["bo", "al"], "founders": ["root"],
+                                                   "operators": ["al"]}}]},
 ]
 
 
